@@ -118,3 +118,31 @@ def random_text(rng, nlines=None):
                                    "block", "end block", "where (a)", "end where", "foo:", "foo: do", "end do foo", "#if X", "#endif",
                                    "include 'f'", "!$omp x", "&", "x = &", "'", "x = 'a", "enum, bind(c)", "end enum"]))
     return "\n".join(out) + "\n"
+
+
+def systematic_variants(line, max_tokens=40):
+    """Every prefix truncation, every single-token deletion and every single-token duplication of one statement line
+    (token boundaries from our lexer; leading indentation kept).  Returns [(class, text)]."""
+    toks = _tokens(line)
+    if not toks or len(toks) < 2 or len(toks) > max_tokens:
+        return []
+    out = []
+    seen = {line}
+
+    def add(cls, t):
+        if t not in seen:
+            seen.add(t)
+            out.append((cls, t))
+
+    for k in range(1, len(toks)):
+        add("truncate", line[:toks[k][2]].rstrip())
+    for k in range(1, min(3, len(toks))):
+        add("behead", line[:toks[0][2]] + line[toks[k][2]:])
+    for (tok, cls, a, b) in toks:
+        add("delete", line[:a] + line[b:])
+        add("duplicate", line[:b] + (" " if tok[-1].isalnum() or tok[-1] == "_" else "") + tok + line[b:])
+    for j, (tok, cls, a, b) in enumerate(toks[:-1]):
+        if tok in (":", ",", "=", "=>", "%", "::", "//", "**"):
+            t2, _, a2, b2 = toks[j + 1]
+            add("extend", line[:b2] + tok + t2 + line[b2:])      # lo:hi -> lo:hi:hi, a, b -> a, b,b
+    return out
